@@ -7,12 +7,16 @@ pub struct HashSet<T> { p: core::marker::PhantomData<T> }
 #[verifier::reject_recursive_types(T)]
 pub struct Drain<T> { p: core::marker::PhantomData<T> }
 
+/// the collection `collect()` builds: a Vec<usize> (written with a turbofish or with a type annotation on the binding)
+pub trait CollectsUsize { spec fn items(&self) -> Seq<usize>; }
+impl CollectsUsize for Vec<usize> { open spec fn items(&self) -> Seq<usize> { self@ } }
+
 impl Drain<usize> {
     /// the elements the drain will yield, in (unspecified) iteration order
     pub uninterp spec fn items(&self) -> Seq<usize>;
     /// std `Iterator::collect::<Vec<_>>()` as instantiated for this iterator
     #[verifier::external_body]
-    pub fn collect(self) -> (r: Vec<usize>) ensures r@ == self.items() { unimplemented!() }
+    pub fn collect<C: CollectsUsize>(self) -> (r: C) ensures r.items() == self.items() { unimplemented!() }
 }
 
 impl HashSet<usize> {
@@ -48,7 +52,7 @@ impl HashSet<usize> {
 pub struct SetIntoIter<T> { p: core::marker::PhantomData<T> }
 impl SetIntoIter<usize> {
     #[verifier::external_body]
-    pub fn collect(self) -> (r: Vec<usize>) { unimplemented!() }
+    pub fn collect<C: CollectsUsize>(self) -> (r: C) { unimplemented!() }
 }
 impl HashSet<usize> {
     /// std `FromIterator::from_iter` as instantiated for a Vec<usize>
@@ -86,7 +90,7 @@ impl<'a> MapKeys<'a> {
 }
 impl<'a> MapKeysCopied<'a> {
     #[verifier::external_body]
-    pub fn collect<C>(self) -> (r: Vec<usize>) { unimplemented!() }
+    pub fn collect<C: CollectsUsize>(self) -> (r: C) { unimplemented!() }
 }
 impl HashMap<usize, usize> {
     pub uninterp spec fn view(&self) -> Map<usize, usize>;
